@@ -1,16 +1,18 @@
 #!/bin/sh
-# usage: bin/seedtest.sh <patch file> <property id> [more property ids / --only args after --]
-# applies a seeded change to /repo, runs the quick check(s), restores /repo.  Exit status of the last check.
-P="$1"; shift
-cd /repo || exit 9
-git diff --quiet || { echo "/repo has local changes"; exit 9; }
-git apply "$P" || { echo "patch does not apply"; exit 9; }
-cd /verif
+# usage: bin/seedtest.sh <seed name> <patch file> <property id>...
+# tries a seeded change WITHOUT touching /repo: a scratch worktree gets the patch, the checks analyse it through
+# VERIF_REPO and write to a scratch output directory.  (The official way - git -C /repo apply; ./check; git checkout -
+# gives the same verdicts; this variant can run while other checks use /repo.)
+N="$1"; P="$2"; shift 2
+W=/tmp/seedwt_$N
+git -C /repo worktree add -q --detach "$W" HEAD || exit 9
+( cd "$W" && git apply "$P" ) || { echo "patch does not apply"; git -C /repo worktree remove --force "$W"; exit 9; }
 rc=0
 for id in "$@"; do
-    ./check "$id" --tier quick > "/tmp/seed_$id.log" 2>&1
-    rc=$?
-    echo "== $id exit=$rc"; grep -E "^VIOLATION|^  obligation|tier=" "/tmp/seed_$id.log" | head -8
+    VERIF_REPO="$W" VERIF_OUT="/tmp/seedout_$N" /verif/check "$id" --tier quick > "/tmp/seed_${N}_$id.log" 2>&1
+    r=$?; [ $r -ne 0 ] && rc=$r
+    echo "== seed $N check $id exit=$r"; grep -E "^VIOLATION|^  obligation|^HARNESS|tier=" "/tmp/seed_${N}_$id.log" | cut -c1-220 | head -6
 done
-git -C /repo checkout -- .
+git -C /repo worktree remove --force "$W"
+rm -rf "/tmp/seedout_$N/work"
 exit $rc
